@@ -121,6 +121,8 @@ func DecodeAlphabet(ibs kanzi.InputBitStream, alphabet []int) (int, error) {
 // Returns the size of the alphabet or an error.
 // The alphabet and freqs parameters are updated.
 func NormalizeFrequencies(freqs []int, alphabet []int, totalFreq, scale int) (int, error) {
+	defer verifNormExit(verifNormEnter(freqs, totalFreq, scale), freqs, alphabet, totalFreq, scale)
+
 	if len(alphabet) > 256 {
 		return 0, fmt.Errorf("Invalid alphabet size parameter: %v (must be less than or equal to 256)", len(alphabet))
 	}
